@@ -3,6 +3,6 @@ CONSTANTS
   MaxNow = 5
   MaxActs = 8
   CfgSet <- CfgAllT
-  ServerZeroRearms = FALSE
+  ServerZeroRearms = TRUE
 INVARIANTS TypeOK
 CHECK_DEADLOCK FALSE
